@@ -574,8 +574,8 @@ def run(ctx):
         op_stream(ctx, 700, 6)
         op_stream(ctx, 250, 9)
     else:
-        op_stream(ctx, 9000, 6)
-        op_stream(ctx, 5000, 12)
+        op_stream(ctx, 16000, 6)
+        op_stream(ctx, 9000, 12)
 
 
 def replay(ctx, rec):
